@@ -311,6 +311,216 @@ let run_case (t : string list) : string =
           evs
       in
       Stdlib.String.concat " " out
+  | "router" :: rest ->
+      let service_names = [| "A"; "pkg.Svc"; "a.b.C"; "x" |] in
+      let bytes_of_string str =
+        Stdlib.List.init (Stdlib.String.length str) (fun i -> n_of_int (Char.code str.[i]))
+      in
+      let rec split acc l =
+        match l with
+        | "|" :: t -> (Stdlib.List.rev acc, t)
+        | x :: t -> split (x :: acc) t
+        | [] -> (Stdlib.List.rev acc, [])
+      in
+      let ops, paths = split [] rest in
+      let stack = ref [ [] ] in
+      let build = ref [] in
+      let failed = ref false in
+      let unsupported = ref false in
+      Stdlib.List.iteri
+        (fun i o ->
+          if not !failed then begin
+            let top, below =
+              match !stack with t :: b -> (t, b) | [] -> failwith "empty stack"
+            in
+            let res =
+              if o = "[" then Some ([] :: top :: below)
+              else if o = "]" then
+                (match below with
+                 | b :: bb ->
+                     (match Router.merge b top with Some r -> Some (r :: bb) | None -> None)
+                 | [] -> failwith "unbalanced")
+              else if o.[0] = 'r' then
+                (match Stdlib.String.split_on_char ':' o with
+                 | [ _; p; sid ] ->
+                     (match Router.parse_pattern (unhex p) with
+                      | Some pat ->
+                          (match Router.route top pat (n_of_string sid) [] with
+                           | Some r -> Some (r :: below)
+                           | None -> None)
+                      | None -> unsupported := true; None)
+                 | _ -> failwith "bad route op")
+              else if o.[0] = 'S' then
+                (match Stdlib.String.split_on_char ':' (Stdlib.String.sub o 1 (Stdlib.String.length o - 1)) with
+                 | [ k; sid ] ->
+                     let k = int_of_string k in
+                     let name = service_names.(if k > 3 then 3 else k) in
+                     (match Router.add_rpc_service top (bytes_of_string name) (n_of_string sid) with
+                      | Some r -> Some (r :: below)
+                      | None -> None)
+                 | _ -> failwith "bad rpc op")
+              else if o.[0] = 'L' then
+                Some (Router.route_layer (n_of_string (Stdlib.String.sub o 1 (Stdlib.String.length o - 1))) top :: below)
+              else failwith "bad op"
+            in
+            match res with
+            | Some st -> stack := st; build := "ok" :: !build
+            | None -> failed := true; build := Printf.sprintf "PANIC@%d" i :: !build
+          end)
+        ops;
+      let b = "build=" ^ Stdlib.String.concat "," (Stdlib.List.rev !build) ^ " |" in
+      if !unsupported then "unsupported"
+      else if !failed then b
+      else begin
+        let r = match !stack with t :: _ -> t | [] -> failwith "empty" in
+        let outs =
+          Stdlib.List.map
+            (fun p ->
+              match Router.dispatch r (unhex p) with
+              | Router.NotFound -> "404"
+              | Router.Found (svc, ls) ->
+                  "s" ^ string_of_n svc
+                  ^ Stdlib.String.concat "" (Stdlib.List.map (fun l -> ";l" ^ string_of_n l) ls))
+            paths
+        in
+        b ^ " " ^ Stdlib.String.concat " " outs
+      end
+  | "gen" :: pkg :: svc :: routes ->
+      let pkg = unhex pkg and svc = unhex svc in
+      let cl = Stdlib.List.map (fun m -> tohex (Codegen.client_path pkg svc (unhex m))) routes in
+      let sv = Stdlib.List.map (fun m -> tohex (Codegen.server_path pkg svc (unhex m))) routes in
+      let j l = if l = [] then "-" else Stdlib.String.concat "," l in
+      Printf.sprintf "client=%s server=%s name=%s" (j cl) (j sv) (tohex (Codegen.service_name pkg svc))
+  | "typed" :: calls ->
+      let bytes_of_string str =
+        Stdlib.List.init (Stdlib.String.length str) (fun i -> n_of_int (Char.code str.[i]))
+      in
+      let string_of_bytes l =
+        Stdlib.String.init (Stdlib.List.length l) (fun i -> Char.chr (int_of_n (Stdlib.List.nth l i)))
+      in
+      (* services: (pkg, svc, [(route, format)]) -- the fixed definition of harness/build.rs *)
+      let services =
+        [ ("", "Alpha", [ ("Echo", "json"); ("Add", "bincode"); ("Raw", "bincode"); ("EchoTwice", "json") ]);
+          ("pkg.sub", "Beta", [ ("Echo", "bincode"); ("Other", "json") ]) ]
+      in
+      let router =
+        Stdlib.List.fold_left
+          (fun (r, i) (pkg, svc, _) ->
+            match
+              Router.add_rpc_service r
+                (Codegen.service_name (bytes_of_string pkg) (bytes_of_string svc))
+                (n_of_int i)
+            with
+            | Some r' -> (r', i + 1)
+            | None -> failwith "model router rejects the services")
+          ([], 0) services
+        |> fst
+      in
+      let log = ref [] in
+      let status_of_code c =
+        match Status.status_new (n_of_string c) with Some s -> s | None -> failwith "bad status"
+      in
+      (* message codec glue: (tag, text, behave) <-> bytes, injective *)
+      let enc_q (tag, text, behave) = bytes_of_string (Printf.sprintf "%s\000%s\000%s" tag text behave) in
+      let dec_q b =
+        match Stdlib.String.split_on_char '\000' (string_of_bytes b) with
+        | [ tag; text; behave ] -> Some (tag, text, behave)
+        | _ -> None
+      in
+      let enc_r m = Some (enc_q m) in
+      let dec_r = dec_q in
+      let handler who (tag, text, behave) =
+        log := (who ^ ":" ^ tag) :: !log;
+        let parts = Stdlib.String.split_on_char ';' behave in
+        let head = Stdlib.List.hd parts in
+        let message = ref None and headers = ref [] in
+        Stdlib.List.iter
+          (fun p ->
+            let n = Stdlib.String.length p in
+            if n >= 2 && Stdlib.String.sub p 0 2 = "m=" then
+              message := Some (bytes_of_string (Stdlib.String.sub p 2 (n - 2)))
+            else if n >= 2 && Stdlib.String.sub p 0 2 = "h=" then begin
+              let kv = Stdlib.String.sub p 2 (n - 2) in
+              let i = Stdlib.String.index kv '=' in
+              headers :=
+                !headers
+                @ [ (bytes_of_string (Stdlib.String.sub kv 0 i),
+                     bytes_of_string (Stdlib.String.sub kv (i + 1) (Stdlib.String.length kv - i - 1))) ]
+            end)
+          (Stdlib.List.tl parts);
+        let reply = (tag, who ^ "<" ^ text ^ ">", "") in
+        let pre k = Stdlib.String.length head >= Stdlib.String.length k
+                    && Stdlib.String.sub head 0 (Stdlib.String.length k) = k in
+        let rest k = Stdlib.String.sub head (Stdlib.String.length k) (Stdlib.String.length head - Stdlib.String.length k) in
+        if head = "ok" then Datatypes.Coq_inl ((Status.Success, !headers), reply)
+        else if pre "okst" then Datatypes.Coq_inl ((status_of_code (rest "okst"), !headers), reply)
+        else if pre "err" then
+          Datatypes.Coq_inr
+            { Codegen.st_code = status_of_code (rest "err"); st_message = !message; st_headers = !headers }
+        else failwith "bad behaviour"
+      in
+      let star = bytes_of_string "*" in
+      let fmt_headers h =
+        let tbl = Hashtbl.create 8 in
+        Stdlib.List.iter (fun (k, v) -> Hashtbl.replace tbl (string_of_bytes k) (tohex v)) h;
+        let l = Hashtbl.fold (fun k v acc -> (k ^ "=" ^ v) :: acc) tbl [] in
+        let l = Stdlib.List.sort compare l in
+        if l = [] then "-" else Stdlib.String.concat "," l
+      in
+      let code st = string_of_n (Status.status_to_u16 st) in
+      let find_method route =
+        (* router dispatch, then the generated server's match *)
+        match Router.dispatch router route with
+        | Router.NotFound -> None
+        | Router.Found (id, _) ->
+            let pkg, svc, methods = Stdlib.List.nth services (int_of_n id) in
+            let names = Stdlib.List.map (fun (m, _) -> bytes_of_string m) methods in
+            (match Codegen.server_select (bytes_of_string pkg) (bytes_of_string svc) names route with
+             | Some i ->
+                 let rec to_int (x : Datatypes.nat) = match x with Datatypes.O -> 0 | Datatypes.S y -> 1 + to_int y in
+                 let m, fmt = Stdlib.List.nth methods (to_int i) in
+                 Some (svc ^ "." ^ m, fmt)
+             | None -> None)
+      in
+      let outs =
+        Stdlib.List.map
+          (fun call ->
+            match Stdlib.String.split_on_char ':' call with
+            | "raw" :: route :: body :: _ ->
+                (match find_method (unhex route) with
+                 | None -> "status:404"
+                 | Some (who, fmt) ->
+                     let w =
+                       Codegen.server_unary dec_q enc_r (bytes_of_string fmt) (handler who) star (unhex body)
+                     in
+                     "status:" ^ code w.Codegen.w_status)
+            | who :: tag :: text :: behave ->
+                let behave = Stdlib.String.concat ":" behave in
+                let svc, m =
+                  match Stdlib.String.split_on_char '.' who with [ s; m ] -> (s, m) | _ -> failwith "bad call"
+                in
+                let pkg, _, _ = Stdlib.List.find (fun (_, s, _) -> s = svc) services in
+                let route = Codegen.client_path (bytes_of_string pkg) (bytes_of_string svc) (bytes_of_string m) in
+                let msg = (tag, string_of_bytes (unhex text), behave) in
+                let res =
+                  match find_method route with
+                  | None ->
+                      Codegen.client_unary dec_r star
+                        { Codegen.w_status = Status.NotFound; w_headers = []; w_body = [] }
+                  | Some (who', fmt) ->
+                      Codegen.typed_call enc_q dec_q enc_r dec_r (bytes_of_string fmt) (handler who') star msg
+                in
+                (match res with
+                 | Datatypes.Coq_inl ((st, hdrs), (tag', text', _)) ->
+                     Printf.sprintf "ok:%s:%s:%s:%s" tag' (tohex (bytes_of_string text')) (code st) (fmt_headers hdrs)
+                 | Datatypes.Coq_inr st ->
+                     let w = Codegen.status_into_response st in
+                     Printf.sprintf "err:%s:%s" (code st.Codegen.st_code) (fmt_headers w.Codegen.w_headers))
+            | _ -> failwith "bad typed call")
+          calls
+      in
+      let l = Stdlib.List.rev !log in
+      Stdlib.String.concat " " outs ^ " | " ^ (if l = [] then "-" else Stdlib.String.concat " " l)
   | [ "version"; v ] ->
       (match Wire.version_new (n_of_string v) with
        | Base.Ok v -> "OK " ^ string_of_n v
